@@ -201,7 +201,7 @@ pub fn c07(ctx: &Ctx) -> Report {
         runs.push(SliceRun { slice: s, depth: ctx.tier.pick(6, 8) });
     }
     let req = ["response delivered", "forged or unauthenticated response dropped, state unchanged (self-loop)", "genuine SHA-1 response delivered to an authenticated request", "genuine SHA-256 response delivered to an authenticated request", "genuine SHA-1+SHA-256 response delivered to an authenticated request", "timed out"];
-    run_slices(ctx, runs, &req, "all histories up to the depth over {send with no / SHA-1 / SHA-256 / both integrity (also behind 18 other attributes), responses unsigned / SHA-1 under R1, R2, local key / SHA-256 under R1, R2 / both / one HMAC bit flipped x success, error x two sources, set remote credentials R1/R2/long-term at any point (unset, set, changed mid-transaction), set local credentials, poll now/wake/wake+1, configure (7ms,3,0), cancel, cancel_retransmissions}, <= 2 live; delivery judged by the reference HMAC; drain from every state; plus single-transaction schedules of an authenticated request to completion with a forged / unsigned / corrupted / local-key / genuine response at every step index x 2 poll patterns x 6 base configurations (all in thorough)", Some(crate::agent::schedule::forgery_sweep(ctx)))
+    run_slices(ctx, runs, &req, "all histories up to the depth over {send with no / SHA-1 / SHA-256 / both integrity (also behind 18 other attributes), responses unsigned / SHA-1 under R1, R2, local key / SHA-256 under R1, R2 / both / one HMAC bit flipped x success, error x two sources, set remote credentials R1/R2/long-term at any point (unset, set, changed mid-transaction), set local credentials, poll now/wake/wake+1, configure (7ms,3,0), cancel, cancel_retransmissions}, <= 2 live; delivery judged by the reference HMAC; drain from every state; plus single-transaction schedules of an authenticated request to completion with a forged / unsigned / corrupted / local-key / genuine response at every step index x 2 poll patterns x 6 base configurations (all in thorough); plus success and error responses of every code 300..=699 x {NONCE, REALM, ALTERNATE-SERVER, FINGERPRINT present or not} x five integrity states x short- / long-term credentials (agent/scale.rs, responses)", Some(crate::agent::schedule::forgery_sweep(ctx).merge(crate::agent::scale::sweep("C07", ctx.tier == Tier::Thorough))))
 }
 
 pub fn c15(ctx: &Ctx) -> Report {
@@ -291,5 +291,17 @@ pub fn c20(ctx: &Ctx) -> Report {
         runs.push(SliceRun { slice: s, depth: ctx.tier.pick(5, 7) });
     }
     let req = ["response delivered", "timed out"];
-    run_slices(ctx, runs, &req, "before the exploration unrelated agents are driven on the main thread and every pool thread (the universe's ids / peers / credential names in other hands, every named timing configuration offset by 0.4 / 0.5 / 0.9 ms and driven to its time-out); a breach of the reference model that a pristine child process does not reproduce on the same history is a C20 violation; every unique state's history of the union slice is replayed on a fresh thread that never ran an agent (reference) and then, on a second fresh thread in this order, (1) with the time base shifted by 10^9 ms, 1 day and 1 ms, (2) unchanged after those later histories, (3) interleaved step by step with an unrelated agent on the other transport running an hour ahead, (4) with the time base at the wall clock and an hour before it, and (5) with the agent handed to another thread half way (that thread drove an unrelated agent an hour ahead before); observations (with instants relative to the base) must be identical", Some(crate::agent::scale::sweep("C20", ctx.tier == Tier::Thorough)))
+    let mut rep = c20_slices(ctx, runs, &req);
+    rep.assumptions.push(format!(
+        "ambient seams (harness/src/ambient.rs): clock_gettime and getenv of this process are the harness' own; on the replay threads of this run the clock was read {} time(s) (the harness' own wall-clock variants included) and the environment was asked {} time(s) for names other than RUST_*, VERIF_*, NO_COLOR (names read: {:?}); every name read is re-run under {} values and unset",
+        crate::ambient::CLOCK_READS.load(std::sync::atomic::Ordering::Relaxed),
+        crate::ambient::ENV_READS.load(std::sync::atomic::Ordering::Relaxed),
+        crate::ambient::env_names(),
+        crate::ambient::ENV_VALUES.len()
+    ));
+    rep
+}
+
+fn c20_slices(ctx: &Ctx, runs: Vec<SliceRun>, req: &[&str]) -> Report {
+    run_slices(ctx, runs, req, "(5b) with the process clock - the harness' own clock_gettime - jumping 7 s / 50 days at every read, and under every value of an 18-word alphabet for every environment variable the library was seen to read (the harness' own getenv); before the exploration unrelated agents are driven on the main thread and every pool thread (the universe's ids / peers / credential names in other hands, every named timing configuration offset by 0.4 / 0.5 / 0.9 ms and driven to its time-out); a breach of the reference model that a pristine child process does not reproduce on the same history is a C20 violation; every unique state's history of the union slice is replayed on a fresh thread that never ran an agent (reference) and then, on a second fresh thread in this order, (1) with the time base shifted by 10^9 ms, 1 day and 1 ms, (2) unchanged after those later histories, (3) interleaved step by step with an unrelated agent on the other transport running an hour ahead, (4) with the time base at the wall clock and an hour before it, and (5) with the agent handed to another thread half way (that thread drove an unrelated agent an hour ahead before); observations (with instants relative to the base) must be identical", Some(crate::agent::scale::sweep("C20", ctx.tier == Tier::Thorough)))
 }
